@@ -171,6 +171,11 @@ inductive Op where
   | updateKey (name : String) (key keyId : Option String)
   /-- `ConfigManager(init_database=False).destroy_database()` -/
   | destroy
+  /-- `EnvService.auto_update_env(get_current_environment())` with a server answering
+  `(requires_auth, min_llamactl_version)` (`env switch` and the capability probes): persists through
+  `ConfigManager.create_or_update_environment` only when one of the two stored fields changes;
+  the current environment and the selected profile are not touched -/
+  | probe (ra : Bool) (minVer : Option String)
 deriving DecidableEq, Repr
 
 inductive Res where
@@ -244,6 +249,9 @@ def step (c : Cfg) (s : State) : Op → State × Res
     | some ex =>
       ({ s with profiles := s.profiles.map (fun p => if p.pid = ex.pid then { p with apiKey := key, apiKeyId := keyId } else p) }, .ok)
   | .destroy => ({ init c with nextId := s.nextId, pick := s.pick }, .ok)
+  | .probe ra mv =>
+    let e := currentEnvironment c s
+    if e.requiresAuth = ra ∧ e.minVer = mv then (s, .ok) else (upsertEnv s ⟨e.url, ra, mv⟩, .ok)
 
 def run (c : Cfg) (s : State) : List Op → State
   | [] => s
